@@ -15,6 +15,7 @@ ENGINES = [
     {"name": "E1 effect/alias engine", "path": "geolint/aliaseng.py", "serves_properties": ["C12", "C05"], "kind_free_text": "interprocedural abstract interpretation (geolint/av.py values: object identity, shallow-copy attribute sharing, ndarray memory with DEF/SOME/UNK certainty; geolint/npmodel.py numpy aliasing table; context per copy= flag; summaries to a fixpoint) with a public-boundary layer geolint/purity.py"},
     {"name": "E5 homogeneity typing", "path": "geolint/homog.py", "serves_properties": ["C03", "C17", "C09", "C11"], "kind_free_text": "dimensional-analysis type system: abstract interpretation with path enumeration, degree maps per argument symbol (geolint/hv.py), sinks = order/sign decisions, equalities, numeric returns, point constructions, affine weights"},
     {"name": "mutation self-test", "path": "geolint/selftest.py", "serves_properties": [], "kind_free_text": "in-memory textual variants of the current tree: breaking variants must be reported with the named rule, twins must be silent"},
+    {"name": "E11 sign-domain membership", "path": "geolint/signdom.py", "serves_properties": ["C16"], "kind_free_text": "abstract interpretation of Triangle.contains over the finite domain of sign vectors of its barycentric determinants (exhaustive, both orientations, scalar and vectorised path) against the closed-triangle specification; closedness rules for the bound comparisons of the segment test and the boundary/coplanarity conjuncts of the polygon test"},
     {"name": "E9 kind dispatch", "path": "geolint/dispatch.py", "serves_properties": ["C09"], "kind_free_text": "decision-list evaluation of isinstance dispatch over all ordered pairs of concrete kinds with static class hierarchy; reduction graph, cycles, documented pairs, kind-blind equality short-cut"},
 ]
 
@@ -24,7 +25,6 @@ NOT_APPLICABLE = [
     {"property_id": "C10", "reason": "perpendicular/parallel/projection/mirror are metric identities on coordinates; the only structural fact (complete initialisation of the np.empty buffer) is checked under C04"},
     {"property_id": "C13", "reason": "containment of defining points, foci, radii and areas are numeric (Circle.area = 2*pi*r^2 was seen while reading but no shape rule separates 2*pi from pi)"},
     {"property_id": "C15", "reason": "square-root sign choices and root selection in the decomposition are value-level"},
-    {"property_id": "C16", "reason": "closedness and the measure-zero special cases are decided by values of determinants; the representative dependence of the same code is reported under C03"},
     {"property_id": "C20", "reason": "agreement of det/adjugate/inv/roots with exact linear algebra on both sides of size thresholds is value-level; purity of adjugate's in-place sign flips is covered by C12"},
 ]
 
@@ -106,6 +106,12 @@ CHECKS = [
         "technique": "homogeneity-degree type system (abstract interpretation over the AST with path enumeration and interprocedural re-analysis); AST rule on the resolved __eq__ of every projective class",
         "text": "For real non-zero scale factors and finite polytope vertices: every order/sign decision, equality/isclose, numeric return of a metric or measure function and point construction in the package is typed with the degree by which it scales when an argument's homogeneous coordinates are rescaled; a sink is PROVEN when both sides scale by the same positive factor (or it is a zero test), a VIOLATION when the degrees are definite and differ or carry a sign - including a projective object built directly from an array whose entries or summands have definite different degrees/signs (raw coordinates stored into an identity matrix, s*A + B) -, UNDECIDED when the expression leaves the vocabulary (inhomogeneous sums, basis_matrix/null_space of raw data). == of every concrete projective class resolves to the scalar-multiple test. Quantifies over all representatives symbolically, which no test input built with Point(x, y) can. Magnitude effects of absolute tolerances, is_multiple itself and complex scale factors are NOT decided.",
         "note": "assumes package primitives (join, meet, project, base_point, ...) return some representative of a representative-independent object; numpy operator degrees as tabulated in geolint/homog.py",
+    },
+    {
+        "id": "C16", "engine": "E11 sign-domain membership", "design_ref": "4 (E11), 5 C16",
+        "technique": "abstract interpretation over a finite sign domain (values touched only through comparisons with 0) with exhaustive enumeration of sign vectors; AST rules on bound comparisons and on the conjuncts/disjuncts of the returned membership",
+        "text": "The part of C16 that lives in comparisons rather than in numbers: Triangle.contains, interpreted over every sign vector of its three barycentric determinants and both orientations (scalar and vectorised path), is True exactly on the closed triangle - vertices and edges included, nothing on the extension of an edge, independent of the direction of the vertex cycle; the two bounds of the segment test are closed (non-strict or widened by the tolerance on the permissive side) and conjoined with membership in the supporting line; the crossing-number parity of the polygon test is joined with edge membership of the query point and the 3D branch requires coplanarity. NOT decided: the crossing-number special cases (ray through a vertex, collinear edges), the projection of embedded polygons, the values of the determinants (their representative independence is C03), rays with an end point at infinity.",
+        "note": "trusts that det(stack([p,b,c])), det(stack([a,p,c])), det(stack([a,b,p])) are the barycentric coordinates up to a common positive factor (recognised by row replacement; a wrong vertex replaced is a documented blind spot); constructs outside the sign interpreter's vocabulary give UNDECIDED",
     },
     {
         "id": "C17", "engine": "E5 homogeneity typing", "design_ref": "4 (E5 affine facet), 5 C17",
